@@ -1487,6 +1487,9 @@ class BinaryOperator(SymbolicExpression, ABC):
         if not is_caching_enabled():
             return False
         cache = self._cache_ if cache is None else cache
+        if not cache.keys:
+            # what mentions no variable (a comparison of constants, a plain bool) has nothing to be indexed by.
+            return False
         if self._yield_when_false_ and cache.holds_true_outputs_only:
             cache.clear()
             return False
